@@ -8684,7 +8684,13 @@ impl<
 			// No action if MPP hasn't completed yet.
 			Ok(false) => Ok(()),
 			Err(()) => {
-				debug_assert!(!first_claimable_htlc);
+				// The first HTLC of a payment can be refused too (e.g. an onion `total_msat` of
+				// zero makes the payment look "already claimable"). Do not leave the empty entry
+				// we just inserted behind: it would refuse later, valid parts of the payment and
+				// cannot be read back once serialized.
+				if first_claimable_htlc {
+					claimable_payments.claimable_payments.remove(&payment_hash);
+				}
 				Err(())
 			},
 		}
